@@ -43,10 +43,31 @@ def rule_table():
     return '\n'.join(rows)
 
 
+def benign_table():
+    rp = os.path.join(V, 'benign', 'RESULTS.json')
+    if not os.path.exists(rp):
+        return '(no recorded run)'
+    res = json.load(open(rp))
+    rows = ['| patch | kind of refactoring (agent\'s words) | result on the 20 checks |', '|-------|--------------------------------------|-------------------------|']
+    for name in sorted(res):
+        mp = os.path.join(V, 'benign', name, 'meta.json')
+        kind = ''
+        if os.path.exists(mp):
+            try:
+                kind = re.sub(r'\s+', ' ', str(json.load(open(mp)).get('kind', '')))[:70].replace('|', '/')
+            except Exception:
+                kind = ''
+        r = res[name]
+        rows.append('| %s | %s | %s |' % (name, kind, 'silent' if r['result'] == 'silent' else ', '.join('%s exit %d' % kv for kv in sorted(r.get('reports', {}).items()))))
+    rows.append('')
+    rows.append('%d refactorings, %d silent on every check.' % (len(res), sum(1 for v in res.values() if v['result'] == 'silent')))
+    return '\n'.join(rows)
+
+
 def main():
     p = os.path.join(V, 'DESIGN.md')
     s = open(p).read()
-    for tag, fn in (('SEED-TABLE', seed_table), ('RULE-TABLE', rule_table)):
+    for tag, fn in (('SEED-TABLE', seed_table), ('RULE-TABLE', rule_table), ('BENIGN-TABLE', benign_table)):
         a = s.index('<!-- %s-BEGIN -->' % tag) + len('<!-- %s-BEGIN -->' % tag)
         b = s.index('<!-- %s-END -->' % tag)
         s = s[:a] + '\n' + fn() + '\n' + s[b:]
